@@ -11,7 +11,7 @@ for f in ("patch.diff", "demo_test.go", "README.md"):
         shutil.copy(os.path.join(src, f), dst)
 log = open(os.path.join(src, "confirm.log"), errors="replace").read() if os.path.exists(os.path.join(src, "confirm.log")) else ""
 meta = {
- "property": pid, "seed": int(k) + int(os.environ.get("SEED_OFFSET", "0")), "round": 2 if os.environ.get("SEED_OFFSET") else 1,
+ "property": pid, "seed": int(k) + int(os.environ.get("SEED_OFFSET", "0")), "round": int(os.environ.get("SEED_ROUND", "2" if os.environ.get("SEED_OFFSET") else "1")),
  "needs_to_manifest": needs,
  "confirmed": {
    "how": "bin/confirm_seed.sh in scratch worktree /tmp/seed-%s (removed afterwards): git apply --check; demo (copied into internal/proxy) passes on HEAD and FAILS with the patch; go build ./... ok; unedited suite `go test -vet=off -count=1 ./...` with the patch: all packages ok except internal/proxy TestRoundTrip(/no_error), which is in BASELINE.always_fail (needs DNS)" % pid,
